@@ -23,6 +23,7 @@ def make_cfg(rng, profile):
         'asyncHandlers': profile.get('async_handlers', rng.random() < 0.3),
         'served': rng.choice([['/'], ['/', '/a'], ['/', '/a', '/b'], '*']),
         'fn': [], 'cls': [], 'onConnect': [], 'onEvent': [], 'onDisconnect': [],
+        'req_auth': rng.random() < 0.35,       # connect handlers declare a required auth parameter (harness only)
     }
     for ns in ['/', '/a', '/b']:
         style = rng.choice(['fn', 'fn', 'cls', 'none', 'partial'])
